@@ -385,7 +385,7 @@ class World:
             else:
                 csock = socket.create_connection(("127.0.0.1", port))
                 csock.setsockopt(socket.IPPROTO_TCP, socket.TCP_NODELAY, 1)
-            lst.settimeout(120)
+            lst.settimeout(60)
             conn, _ = lst.accept()
             lst.close()
             conn.setsockopt(socket.IPPROTO_TCP, socket.TCP_NODELAY, 1)
@@ -932,7 +932,7 @@ def run_case(a):
             if callers[0].done:
                 break
             # the caller went to sleep before executing k lines
-            if (not w.spec["stall"] or w.stall.hit.is_set()) and tr.times and time.monotonic() - tr.times[-1] > 0.6:
+            if (not w.spec["stall"] or w.stall.hit.is_set()) and tr.times and time.monotonic() - tr.times[-1] > (1.0 if w.spec["stall"] else 3.0):
                 break
             time.sleep(0.005)
         res["k_reached"] = reached
@@ -945,7 +945,7 @@ def run_case(a):
         res["n_lines_seen"] = tr.n
     else:  # after
         injector.start()
-        verdict, info, last = observe(w, [], window, 4 * window + 40, extra_threads=[injector])
+        verdict, info, last = observe(w, [], window, 3 * window + 25, extra_threads=[injector])
         if verdict != "ok":
             res.update(verdict=verdict, window=info, call_made=False, active=last["active"], drained=last["drained"],
                        vthread=describe(last["vstack"]) if last["vstack"] else None,
@@ -964,7 +964,7 @@ def run_case(a):
         wait_inactive(1.0)
     w.stall.go.set()
     phases["lost"] = round(time.monotonic() - t_begin, 2)
-    verdict, info, last = observe(w, callers, window + tmo, 4 * window + 40 + tmo, extra_threads=[injector])
+    verdict, info, last = observe(w, callers, window + tmo, 3 * window + 25 + tmo, extra_threads=[injector])
     res.update(
         verdict=verdict,
         window=info,
